@@ -489,8 +489,46 @@ class Shape:
     pass
 
 
+WSUM = "weighted sum (not divided by the sum of the weights)"
+
+
+def wsum_of(t):
+    """(weight, data, axis) if ``t`` is a weighted *sum* over the horizon: np.dot(w, x) / w @ x / np.matmul(w, x) /
+    np.sum(w * x, axis=..) with exactly one operand carrying the horizon weights."""
+    pair = None
+    if t[0] == "call" and t[1] in (F("numpy.dot"), F("numpy.matmul")) and not t[2] and len(t[3]) == 2:
+        pair = (t[3][0][1], t[3][1][1])
+        axis = K(0)
+    elif t[0] == "bin" and t[1] == "MatMult":
+        pair = (t[2], t[3])
+        axis = K(0)
+    if pair is not None:
+        w_, x_ = pair
+        if S.mentions(w_, HW) and not S.mentions(x_, HW):
+            return w_, x_, axis
+        return None
+    if S.is_call_to(t, "numpy.sum") and not t[2]:
+        kw = dict(t[3])
+        a = kw.get("a")
+        if a is not None and a[0] == "prod" and not a[2] and set(kw) <= {"a", "axis"}:
+            ws = [x for x in a[1] if S.mentions(x, HW)]
+            rest = [x for x in a[1] if not S.mentions(x, HW)]
+            if len(ws) == 1 and rest:
+                return ws[0], mk_prod(rest), kw.get("axis", NONE)
+    return None
+
+
 def agg_of(t):
     """(family, data, weight-or-'NOSLOT', axis, extras) if ``t`` is an aggregator call."""
+    ws = wsum_of(t)
+    if ws is not None:
+        return WSUM, ws[1], ws[0], ws[2], {}, "weighted sum"
+    if t[0] == "prod" and len(t[1]) == 1 and len(t[2]) == 1 and wsum_of(t[1][0]) is not None:
+        w_, x_, axis = wsum_of(t[1][0])
+        n = t[2][0]
+        if S.is_call_to(n, "numpy.sum") and not n[2] and dict(n[3]).get("a") == w_ and \
+                dict(n[3]).get("axis", NONE) in (NONE, K(0)) and set(dict(n[3])) <= {"a", "axis"}:
+            return "mean", x_, w_, axis, {}, "weighted sum / sum of weights"
     if t[0] != "call" or t[1][0] != "f" or t[1][1] not in AGGS or t[2]:
         return None
     family, dp, wp, ap, adef = AGGS[t[1][1]]
@@ -557,7 +595,7 @@ def abstract_agg(t):
     """Replace horizon aggregators by ("AGG", family, data, axis): what remains must agree between siblings."""
     if not isinstance(t, tuple):
         return t
-    a = agg_of(t) if t and t[0] == "call" else None
+    a = agg_of(t) if t and t[0] in ("call", "prod", "bin") else None
     if a is not None:
         family, data, weight, axis, extra, _ = a
         if weight in ("NOSLOT", NONE) or S.mentions(weight, HW):
